@@ -1,8 +1,14 @@
 #!/bin/bash
-# tools_seed.sh Cxx [name] : verify a seeded change delivered in /tmp/seed-<name>-out (worktree /tmp/seed-<name>), run the
-# check of property Cxx against the changed tree (VERIF_REPO=worktree), store everything in /verif/seeded/<name>/.
-P=$1; N=${2:-$1}; OUT=/tmp/seed-$N-out; WT=/tmp/seed-$N; D=/verif/seeded/$N
-mkdir -p $D; cp $OUT/patch.diff $OUT/demo.py $D/; cp $OUT/meta.json $D/meta.agent.json
+# tools_seed.sh Cxx [name] : (re-)verify a seeded change against the CURRENT /repo HEAD.
+# Takes deliverables from /tmp/seed-<name>-out if present (first time), else from /verif/seeded/<name>/.
+# Applies patch.diff to a fresh scratch worktree of /repo HEAD, runs the demo on /repo (expect PASS) and on the
+# worktree (expect FAIL), runs ./check Cxx against the worktree, stores logs + meta.json, removes the worktree.
+P=$1; N=${2:-$1}; OUT=/tmp/seed-$N-out; D=/verif/seeded/$N; WT=/tmp/seedrun-$N
+mkdir -p $D
+if [ -f $OUT/patch.diff ]; then cp $OUT/patch.diff $OUT/demo.py $D/; cp $OUT/meta.json $D/meta.agent.json; fi
+git -C /repo worktree remove --force $WT 2>/dev/null; git -C /repo worktree add -q --detach $WT HEAD 2>&1 | grep -v conda
+PF=$D/patch.diff; [ -f $D/patch.rebased.diff ] && PF=$D/patch.rebased.diff
+( cd $WT && git apply $PF ) > $D/apply.log 2>&1; ap=$?
 cd /verif
 PYTHONPATH=/repo /venv/bin/python $D/demo.py > $D/demo.unchanged.log 2>&1; r0=$?
 PYTHONPATH=$WT /venv/bin/python $D/demo.py > $D/demo.changed.log 2>&1; r1=$?
@@ -10,12 +16,16 @@ VERIF_REPO=$WT ./check $P --tier quick > $D/check.changed.log 2>&1; rc=$?
 nv=$(grep -c '^VIOLATION' $D/check.changed.log)
 nf=$(grep '^VIOLATION' $D/check.changed.log | grep -vc 'no-failing-input-found')
 python3 - <<PY
-import json
+import json,os
 a=json.load(open('$D/meta.agent.json'))
+old=json.load(open('$D/meta.json')) if os.path.exists('$D/meta.json') else {}
 m=dict(property='$P', summary=a.get('summary'), needs_to_manifest=a.get('needs_to_manifest'), tests_run_by_author=a.get('tests_run'),
-       lead_verification=dict(demo_exit_unchanged=$r0, demo_exit_changed=$r1, check_cmd='VERIF_REPO=<tree with patch> ./check $P --tier quick',
+       lead_verification=dict(repo_head=os.popen('git -C /repo rev-parse --short HEAD').read().strip().splitlines()[-1], patch_applies=($ap==0),
+                              demo_exit_unchanged=$r0, demo_exit_changed=$r1, check_cmd='VERIF_REPO=<fresh worktree of /repo HEAD with patch.diff applied> ./check $P --tier quick',
                               check_exit=$rc, violation_lines=$nv, with_concrete_failing_input=$nf))
+if 'history' in old: m['history']=old['history']
 json.dump(m, open('$D/meta.json','w'), indent=1)
 print(json.dumps(m['lead_verification']))
 PY
-tail -n 4 $D/check.changed.log | grep -v conda
+grep -h '^VIOLATION' $D/check.changed.log | head -3 | cut -c1-160
+git -C /repo worktree remove --force $WT
